@@ -1,1 +1,628 @@
+// Package format: C14 — `format X -> format json` gives back the JSON value it was given, for every
+// value the target format can represent (yaml: any value; toml: maps; jsonl: arrays; csv: tables of
+// string cells). Bounded-exhaustive enumeration of JSON documents over a hostile leaf alphabet.
 package format
+
+import (
+	"encoding/json"
+	"fmt"
+	"sort"
+	"strings"
+
+	"verif/checks/g3util"
+	"verif/mx"
+	"verif/vlib"
+)
+
+// ---- alphabets (DESIGN §C14) --------------------------------------------------------------------
+
+var strLeaves = []string{"", "a", "#x", " lead", "true", "null", "1", "a,b", "a\"b", "a: b", "- a", "é", "~"}
+
+func anyStrings(l []string) []any {
+	o := make([]any, len(l))
+	for i, s := range l {
+		o[i] = s
+	}
+	return o
+}
+
+var leafFull = append(anyStrings(strLeaves), 0.0, 1.0, -1.5, true, nil)
+var leafRed = []any{"", "#x", "true", 1.0, -1.5, nil}
+var leafRedT = []any{"", "a", "#x", "true", 1.0, -1.5, true, nil} // thorough
+
+var keys1Full = strLeaves
+var keyPairsFull = [][]string{{"k", "#x"}, {"1", "true"}, {"", " lead"}, {"a: b", "~"}}
+var keyTriples = [][]string{{"#x", "k", "null"}, {"", "- a", "é"}}
+var keys1Red = []string{"k", "#x", "true", ""}
+var keyPairsRed = [][]string{{"k", "#x"}, {"", "true"}}
+
+// csv
+var csvHeaders1 = strLeaves
+var csvHeaderPairs = [][]string{{"h", "k"}, {"#x", "k"}, {"", "k"}, {" lead", "a,b"}, {"1", "true"}, {"a\"b", "é"}}
+var csvCellsSmall = []string{"", "a", "#x", " lead", "a,b", "a\"b", "é"}
+
+// ---- document enumeration --------------------------------------------------------------------------
+
+func isContainer(v any) bool {
+	switch v.(type) {
+	case []any, map[string]any:
+		return true
+	}
+	return false
+}
+
+// arraysOver emits every array of minKids..maxKids children (odometer order); with needContainer
+// only those having at least one container child (so that families stay disjoint).
+func arraysOver(ch []any, minKids, maxKids int, needContainer bool, emit func(any) bool) bool {
+	ok := true
+	vlib.Seqs(len(ch), minKids, maxKids, func(idx []int) bool {
+		a := make([]any, len(idx))
+		has := false
+		for i, x := range idx {
+			a[i] = ch[x]
+			has = has || isContainer(ch[x])
+		}
+		if needContainer && !has {
+			return true
+		}
+		ok = emit(a)
+		return ok
+	})
+	return ok
+}
+
+// mapsOver emits {} (when minKids==0), every one-entry map key∈keys1, and every map over each key tuple.
+func mapsOver(ch []any, keys1 []string, tuples [][]string, withEmpty, needContainer bool, emit func(any) bool) bool {
+	if withEmpty && !needContainer {
+		if !emit(map[string]any{}) {
+			return false
+		}
+	}
+	for _, k := range keys1 {
+		for _, v := range ch {
+			if needContainer && !isContainer(v) {
+				continue
+			}
+			if !emit(map[string]any{k: v}) {
+				return false
+			}
+		}
+	}
+	for _, t := range tuples {
+		ok := true
+		radix := make([]int, len(t))
+		for i := range radix {
+			radix[i] = len(ch)
+		}
+		vlib.Product(radix, func(idx []int) bool {
+			m := map[string]any{}
+			has := false
+			for i, x := range idx {
+				m[t[i]] = ch[x]
+				has = has || isContainer(ch[x])
+			}
+			if needContainer && !has {
+				return true
+			}
+			ok = emit(m)
+			return ok
+		})
+		if !ok {
+			return false
+		}
+	}
+	return true
+}
+
+func collect(f func(emit func(any) bool) bool) []any {
+	var out []any
+	f(func(v any) bool { out = append(out, v); return true })
+	return out
+}
+
+type family struct {
+	name string
+	gen  func(emit func(any) bool) bool
+}
+
+func tables(headers1 []string, pairs [][]string, cells []string, maxRows int, cols1, cols2 bool) func(emit func(any) bool) bool {
+	return func(emit func(any) bool) bool {
+		if cols1 {
+			for _, h := range headers1 {
+				ok := true
+				vlib.Seqs(len(cells), 1, maxRows, func(idx []int) bool {
+					t := make([]any, len(idx))
+					for i, x := range idx {
+						t[i] = map[string]any{h: cells[x]}
+					}
+					ok = emit(t)
+					return ok
+				})
+				if !ok {
+					return false
+				}
+			}
+		}
+		if cols2 {
+			for _, p := range pairs {
+				ok := true
+				vlib.Seqs(len(cells), 2, 2*maxRows, func(idx []int) bool {
+					if len(idx)%2 != 0 {
+						return true
+					}
+					t := make([]any, len(idx)/2)
+					for i := range t {
+						t[i] = map[string]any{p[0]: cells[idx[2*i]], p[1]: cells[idx[2*i+1]]}
+					}
+					ok = emit(t)
+					return ok
+				})
+				if !ok {
+					return false
+				}
+			}
+		}
+		return true
+	}
+}
+
+func families(quick bool) []family {
+	kids1 := 2
+	red := leafRed
+	if !quick {
+		kids1 = 3
+		red = leafRedT
+	}
+	d1red := collect(func(emit func(any) bool) bool {
+		return arraysOver(red, 0, 2, false, emit) && mapsOver(red, keys1Red[:2], keyPairsRed[:1], true, false, emit)
+	})
+	ch2 := append(append([]any{}, red...), d1red...)
+	fams := []family{
+		{"leaf", func(emit func(any) bool) bool {
+			for _, l := range leafFull {
+				if !emit(l) {
+					return false
+				}
+			}
+			return true
+		}},
+		{"array-d1", func(emit func(any) bool) bool { return arraysOver(leafFull, 0, kids1, false, emit) }},
+		{"map-d1", func(emit func(any) bool) bool {
+			t := keyPairsFull
+			if !quick {
+				t = append(append([][]string{}, keyPairsFull...), keyTriples...)
+			}
+			return mapsOver(leafFull, keys1Full, t, true, false, emit)
+		}},
+		{"array-d2", func(emit func(any) bool) bool { return arraysOver(ch2, 1, kids1, true, emit) }},
+		{"map-d2", func(emit func(any) bool) bool { return mapsOver(ch2, keys1Red, keyPairsRed, false, true, emit) }},
+		{"table", tables(csvHeaders1, csvHeaderPairs, strLeaves, 2, true, true)},
+	}
+	if !quick {
+		fams = append(fams, family{"table-3rows", tables(csvHeaders1[:5], csvHeaderPairs, csvCellsSmall, 3, true, true)})
+	}
+	return fams
+}
+
+// ---- representability (what the statement quantifies over) ------------------------------------------
+
+func kind(v any) string {
+	switch v.(type) {
+	case nil:
+		return "null"
+	case bool:
+		return "bool"
+	case float64:
+		return "number"
+	case string:
+		return "string"
+	case []any:
+		return "array"
+	}
+	return "map"
+}
+
+func hasNull(v any) bool {
+	switch t := v.(type) {
+	case nil:
+		return true
+	case []any:
+		for _, e := range t {
+			if hasNull(e) {
+				return true
+			}
+		}
+	case map[string]any:
+		for _, e := range t {
+			if hasNull(e) {
+				return true
+			}
+		}
+	}
+	return false
+}
+
+func homogeneous(v any) bool {
+	switch t := v.(type) {
+	case []any:
+		for i, e := range t {
+			if kind(e) != kind(t[0]) || !homogeneous(t[i]) {
+				return false
+			}
+		}
+	case map[string]any:
+		for _, e := range t {
+			if !homogeneous(e) {
+				return false
+			}
+		}
+	}
+	return true
+}
+
+// isTable: a non-empty array of flat objects with the same non-empty key set and string values.
+func isTable(v any) bool {
+	rows, ok := v.([]any)
+	if !ok || len(rows) == 0 {
+		return false
+	}
+	var keys []string
+	for i, r := range rows {
+		m, ok := r.(map[string]any)
+		if !ok || len(m) == 0 {
+			return false
+		}
+		var ks []string
+		for k, c := range m {
+			if _, ok := c.(string); !ok {
+				return false
+			}
+			ks = append(ks, k)
+		}
+		sort.Strings(ks)
+		if i == 0 {
+			keys = ks
+		} else if strings.Join(ks, "\x00") != strings.Join(keys, "\x00") {
+			return false
+		}
+	}
+	return true
+}
+
+var formats = []string{"yaml", "toml", "jsonl", "csv"}
+
+// applicable: is the format run at all on this document (right top-level shape)?
+func applicable(f string, doc any) bool {
+	switch f {
+	case "yaml":
+		return true
+	case "toml":
+		return kind(doc) == "map"
+	case "jsonl":
+		return kind(doc) == "array"
+	case "csv":
+		if a, ok := doc.([]any); ok && len(a) == 0 {
+			return true // the empty table: run for the universal clauses only
+		}
+		return isTable(doc)
+	}
+	return false
+}
+
+// notAsserted returns a reason when the statement does not cover (format, doc); such cases are run
+// for the universal clauses only.
+func notAsserted(f string, doc any) string {
+	switch f {
+	case "yaml":
+		if doc == nil {
+			return "top-level null (murex's json encoder reports `null` as 'no data returned' by design)"
+		}
+	case "toml":
+		if hasNull(doc) {
+			return "toml has no null"
+		}
+		if !homogeneous(doc) {
+			return "toml: heterogeneous array (not representable before TOML 1.0)"
+		}
+	case "jsonl":
+		a := doc.([]any)
+		if len(a) == 0 {
+			return "jsonl: the empty array is an empty stream, which carries no value"
+		}
+		for _, e := range a {
+			if e == nil {
+				return "jsonl: a null line (murex's json encoder reports `null` as 'no data returned' by design)"
+			}
+		}
+	case "csv":
+		if a, ok := doc.([]any); ok && len(a) == 0 {
+			return "csv: the empty table is an empty stream, which carries no value"
+		}
+	}
+	return ""
+}
+
+// hostile: the document carries a string (leaf or key) other than the plain words a, h, k.
+func hostile(v any) bool {
+	plain := func(s string) bool { return s == "a" || s == "h" || s == "k" }
+	switch t := v.(type) {
+	case string:
+		return !plain(t)
+	case []any:
+		for _, e := range t {
+			if hostile(e) {
+				return true
+			}
+		}
+	case map[string]any:
+		for k, e := range t {
+			if !plain(k) || hostile(e) {
+				return true
+			}
+		}
+	}
+	return false
+}
+
+// ---- the check ---------------------------------------------------------------------------------------
+
+type wit struct {
+	Format string `json:"format"`
+	Doc    any    `json:"doc"`
+}
+
+func init() {
+	vlib.Register(&vlib.Check{
+		ID: "C14", Engine: "E2",
+		Rule:   "JSON documents over the leaves {\"\", a, #x, ' lead', true, null, 1, 'a,b', a\"b, 'a: b', '- a', é, ~ (strings), 0, 1, -1.5, true, null}: every leaf; every array of 0..K leaves (K=2 quick, 3 thorough); every map {} / one entry keyed by each of the 13 strings / entries for 4 key pairs (+2 key triples thorough); every depth-2 array (1..K children) and map (4 single keys, 2 key pairs) with at least one container child, children taken from a reduced leaf set (6 quick, 8 thorough) and all depth-1 containers over it; csv tables as arrays of flat objects: 1 column (13 headers) and 2 columns (6 header pairs) x 1..2 rows of cells from the 13 strings (thorough: also 3 rows over 7 cells). Each document is written to the json-typed stdin of `format F -> format json` for F = yaml (always), toml (top-level maps), jsonl (top-level arrays), csv (tables); stdout must decode (encoding/json, numbers as float64) to the same value. Not asserted, run for no-panic/termination only and counted: yaml top-level null, toml with null or a heterogeneous array, jsonl empty array or null line, csv empty table. non-trivial = the document contains a string leaf or key other than the plain words a/h/k (i.e. something that needs format-specific quoting)",
+		Run:    run,
+		Replay: replay,
+		Assumptions: []string{
+			"leaf alphabet, nesting depth and fan-out as stated in rule",
+			"documents reach murex through the fork's typed stdin, never through source text",
+			"a violation's witness is minimised by greedy removal/hoisting/simplification of sub-documents while the same clause still fails",
+		},
+	})
+}
+
+func run(c *vlib.Ctx) {
+	mx.Init(c.WorkDir)
+	n := 0
+	for _, fam := range families(c.Quick()) {
+		cont := fam.gen(func(doc any) bool {
+			for _, f := range formats {
+				if !applicable(f, doc) {
+					continue
+				}
+				if fam.name == "table" || fam.name == "table-3rows" {
+					if f != "csv" {
+						continue // the table families exist for csv; other formats see tables in array-d2
+					}
+				}
+				if !c.Next() {
+					continue
+				}
+				n++
+				if n&0xff == 0 && c.Expired() {
+					return false
+				}
+				w := wit{f, doc}
+				res := check(w)
+				c.Eval(res.nontrivial, f+" "+fam.name+" "+res.outcome)
+				if res.skipped != "" {
+					c.Extra("not asserted — "+res.skipped, 1)
+				}
+				if n%9973 == 1 {
+					c.Sample(map[string]any{"case": w, "stdout": vlib.Clip(res.stdout, 160)})
+				}
+				if res.clause != "" {
+					mw, mres := minimise(w, res)
+					c.Violation(mres.clause, g3util.JSON(mw), mres.detail)
+				}
+			}
+			return true
+		})
+		if !cont {
+			return
+		}
+	}
+}
+
+type result struct {
+	clause, detail string
+	nontrivial     bool
+	outcome        string
+	skipped        string
+	stdout         string
+}
+
+var memo = map[string]result{}
+
+func check(w wit) result {
+	key := g3util.JSON(w)
+	if r, ok := memo[key]; ok {
+		return r
+	}
+	r := check1(w)
+	if len(memo) < 200000 {
+		memo[key] = r
+	}
+	return r
+}
+
+func check1(w wit) (res result) {
+	if !applicable(w.Format, w.Doc) {
+		res.outcome = "not-applicable"
+		return
+	}
+	res.nontrivial = hostile(w.Doc)
+	res.skipped = notAsserted(w.Format, w.Doc)
+	docText := g3util.JSON(w.Doc)
+	prog := "format " + w.Format + " -> format json"
+	r := g3util.Run(prog, &mx.Opt{Stdin: []byte(docText), StdinType: "json"})
+	res.stdout = r.Stdout
+	if cl, d := g3util.Universal(r); cl != "" {
+		res.outcome = cl
+		res.clause, res.detail = cl, fmt.Sprintf("%s fed %s: %s", prog, docText, d)
+		return
+	}
+	if res.skipped != "" {
+		res.outcome = "not-asserted"
+		res.nontrivial = false
+		return
+	}
+	fail := func(kind, what string) {
+		mid := g3util.Run("format "+w.Format, &mx.Opt{Stdin: []byte(docText), StdinType: "json"})
+		res.outcome = kind
+		res.clause = "roundtrip-" + w.Format
+		res.detail = fmt.Sprintf("`%s` fed %s: %s; `format %s` alone printed %q", prog, docText, what, w.Format, vlib.Clip(mid.Stdout, 300))
+	}
+	if r.Exit != 0 {
+		fail("refused", fmt.Sprintf("exit %d, stdout %q, stderr %q", r.Exit, vlib.Clip(r.Stdout, 200), vlib.Clip(r.Stderr, 300)))
+		return
+	}
+	var got any
+	if err := json.Unmarshal([]byte(r.Stdout), &got); err != nil {
+		fail("undecodable", fmt.Sprintf("stdout %q is not JSON (%v)", vlib.Clip(r.Stdout, 200), err))
+		return
+	}
+	if gt := g3util.JSON(got); gt != docText {
+		fail("altered", "came back as "+vlib.Clip(gt, 300))
+		return
+	}
+	res.outcome = "ok"
+	return
+}
+
+// ---- witness minimisation ----------------------------------------------------------------------------
+
+// candidates: one-step simplifications of a document.
+func candidates(v any) []any {
+	var out []any
+	switch t := v.(type) {
+	case []any:
+		for i := range t {
+			out = append(out, append(append([]any{}, t[:i]...), t[i+1:]...)) // drop a child
+		}
+		// arrays of maps: drop one key from every row (keeps csv tables rectangular)
+		if len(t) > 0 {
+			if m0, ok := t[0].(map[string]any); ok && len(m0) > 1 {
+				for _, k := range sortedKeys(m0) {
+					rows := make([]any, len(t))
+					good := true
+					for i, r := range t {
+						m, ok := r.(map[string]any)
+						if !ok {
+							good = false
+							break
+						}
+						nm := map[string]any{}
+						for kk, vv := range m {
+							if kk != k {
+								nm[kk] = vv
+							}
+						}
+						rows[i] = nm
+					}
+					if good {
+						out = append(out, rows)
+					}
+				}
+			}
+		}
+		for i := range t {
+			out = append(out, t[i]) // hoist a child
+		}
+		for i := range t {
+			for _, c := range candidates(t[i]) {
+				n := append([]any{}, t...)
+				n[i] = c
+				out = append(out, n)
+			}
+		}
+	case map[string]any:
+		keys := sortedKeys(t)
+		for _, k := range keys {
+			n := map[string]any{}
+			for kk, vv := range t {
+				if kk != k {
+					n[kk] = vv
+				}
+			}
+			out = append(out, n)
+		}
+		for _, k := range keys {
+			out = append(out, t[k])
+		}
+		for _, k := range keys {
+			for _, c := range candidates(t[k]) {
+				n := map[string]any{}
+				for kk, vv := range t {
+					n[kk] = vv
+				}
+				n[k] = c
+				out = append(out, n)
+			}
+		}
+		for _, k := range keys { // simplify a key
+			if k != "k" {
+				if _, clash := t["k"]; !clash {
+					n := map[string]any{}
+					for kk, vv := range t {
+						if kk == k {
+							n["k"] = vv
+						} else {
+							n[kk] = vv
+						}
+					}
+					out = append(out, n)
+				}
+			}
+		}
+	default:
+		if s, ok := v.(string); !ok || s != "a" {
+			out = append(out, "a")
+		}
+	}
+	return out
+}
+
+func sortedKeys(m map[string]any) []string {
+	var ks []string
+	for k := range m {
+		ks = append(ks, k)
+	}
+	sort.Strings(ks)
+	return ks
+}
+
+func minimise(w wit, res result) (wit, result) {
+	for steps := 0; steps < 200; steps++ {
+		progressed := false
+		for _, c := range candidates(w.Doc) {
+			cw := wit{w.Format, c}
+			if r := check(cw); r.clause == res.clause {
+				w, res, progressed = cw, r, true
+				break
+			}
+		}
+		if !progressed {
+			break
+		}
+	}
+	return w, res
+}
+
+func replay(c *vlib.Ctx, witness string) {
+	mx.Init(c.WorkDir)
+	var w wit
+	if err := json.Unmarshal([]byte(witness), &w); err != nil {
+		fmt.Println("witness is not a C14 case:", err)
+		return
+	}
+	res := check(w)
+	c.Eval(res.nontrivial, w.Format+" replay "+res.outcome)
+	if res.clause != "" {
+		c.Violation(res.clause, g3util.JSON(w), res.detail)
+	}
+}
